@@ -38,6 +38,8 @@ enum Tk {
     IsZero,
     EqCaller,
     CondJump,
+    /// an unconditional jump to a constant target beyond the code: the path ends here, what follows is dead
+    DeadJump,
     // real accesses
     Sload1,
     Sstore2,
@@ -69,6 +71,7 @@ fn alphabet() -> Vec<Tk> {
         Tk::IsZero,
         Tk::EqCaller,
         Tk::CondJump,
+        Tk::DeadJump,
         Tk::Sload1,
         Tk::Sstore2,
         Tk::Sstore,
@@ -85,7 +88,7 @@ fn arity(t: Tk) -> (usize, usize) {
         Tk::Pop | Tk::MstoreHi | Tk::Sstore2 => (1, 0),
         Tk::Dup1 => (1, 2),
         Tk::Log1 => (1, 0),
-        Tk::Return => (0, 0),
+        Tk::Return | Tk::DeadJump => (0, 0),
         Tk::StaticCallArg | Tk::DelegateCallArg | Tk::CallArg | Tk::CreateArg | Tk::HashAgain => (1, 1),
         Tk::RevertArg | Tk::CondJump => (1, 0),
         Tk::Balance | Tk::IsZero | Tk::EqCaller => (1, 1),
@@ -136,6 +139,7 @@ fn expand(seq: &[Tk]) -> Vec<u8> {
             Tk::EqCaller => t.extend([o(op::CALLER), o(op::EQ)]),
             // the value decides a conditional jump to the end of the code (an invalid target is fine in permissive mode)
             Tk::CondJump => t.extend([Tok::PushLen(0), o(op::JUMPI)]),
+            Tk::DeadJump => t.extend([Tok::PushLen(0), o(op::JUMP)]),
             Tk::Sload1 => t.extend([p(1), o(op::SLOAD)]),
             Tk::Sstore2 => t.extend([p(2), o(op::SSTORE)]),
             Tk::Sstore => t.push(o(op::SSTORE)),
@@ -394,10 +398,16 @@ impl Check for C05 {
                     return false;
                 }
             }
-            let storage_free = !seq.iter().any(|t| is_storage(*t));
+            // what the EVM executes ends at the first jump that cannot succeed; storage instructions behind it are dead
+            let live = seq.iter().position(|t| *t == Tk::DeadJump).map_or(seq.len(), |i| i + 1);
+            let storage_free = !seq[..live].iter().any(|t| is_storage(*t));
+            let dead_storage = seq[live..].iter().any(|t| is_storage(*t));
             let hashes = seq.iter().any(|t| matches!(t, Tk::MapKeyCaller7 | Tk::MapKeyCdl8 | Tk::ArrKey7Add | Tk::PushHash7));
-            if !hashes {
+            if !hashes && !dead_storage {
                 return true;
+            }
+            if dead_storage {
+                ctx.count("programs_with_dead_storage_code", 1);
             }
             let code = expand(&seq);
             ctx.case(|| json!({"bytes": hex(&code), "storage_free": storage_free}));
@@ -419,11 +429,11 @@ impl Check for C05 {
     }
     fn coverage(&self, tier: Tier, total: &Ctx) -> Map<String, Value> {
         let rule = format!(
-            "all stack-safe token sequences <= {} over 26 tokens that contain at least one look-alike hash computation: \
+            "all stack-safe token sequences <= {} over 27 tokens that contain at least one look-alike hash computation or dead storage code: \
              keccak(caller . 7), keccak(calldata . 8), keccak(7) + x, the literal keccak(7), a 160-bit mask, ADD, POP, DUP1, MSTORE, \
              LOG1, RETURN, CALLVALUE, the value passed as the argument data of STATICCALL / DELEGATECALL / CALL, as CREATE init code, as \
-             REVERT payload, hashed again, used as an address, zero-tested, compared, used as a branch condition, and the real accesses SLOAD(1), SSTORE(2), SSTORE / SLOAD with the key taken from the stack. \
-             Storage-free programs must yield an empty layout. For mixed programs every layout index must lie in the over-approximated \
+             REVERT payload, hashed again, used as an address, zero-tested, compared, used as a branch condition, a JUMP beyond the code (everything behind it, storage instructions included, is dead), and the real accesses SLOAD(1), SSTORE(2), SSTORE / SLOAD with the key taken from the stack. \
+             Programs whose live part (up to the first jump that cannot succeed) executes no storage instruction must yield an empty layout. For mixed programs every layout index must lie in the over-approximated \
              closure of the constants found in KEY sub-trees of the storage nodes of the execution result (constants, their keccak \
              pre-images below 10000, hashes of constant data, one constant addition). non-trivial = every such program (each contains a \
              look-alike hash); distinct by program. Second family: all stack-safe sequences <= {} over the {} mask-and-shift tokens of C12 \
